@@ -4,6 +4,8 @@
 // serves C02 (delivered heights), C09 (error path: an Err from get_block never reaches a callback)
 use vstd::prelude::*;
 verus! {
+//@extract consts src/blockchain/parser/mod.rs
+//@end
 
 // ---- logging macros resolve to no-ops (D4) ----------------------------------------------
 #[allow(unused_macros)] macro_rules! debug { ($($t:tt)*) => { () } }
